@@ -592,6 +592,9 @@ ZERO_VALID_KEYS = {
     "onset_quarter": "an onset", "onset_sec": "an onset", "number": "a controller / measure number", "value": "a controller value",
 }
 
+ZERO_VALID_GETATTR = {"Measure": "a measure number of a match line (measure 0 is the upbeat measure)", "measure": "a measure number",
+                      "number": "a measure / ending number", "fifths": "a key signature", "Bar": "a measure number", "octave": "an octave"}
+
 _F11_POSITIVE = """
 def f(m, c, prev):
     a = m.number or prev
@@ -640,6 +643,9 @@ def zero_valid_truth_tests(fnode):
                 and isinstance(e.args[0], ast.Constant) and e.args[0].value in ZERO_VALID_KEYS \
                 and (len(e.args) == 1 or (isinstance(e.args[1], ast.Constant) and not e.args[1].value)):
             yield e, ZERO_VALID_KEYS[e.args[0].value]
+        elif isinstance(e, ast.Call) and isinstance(e.func, ast.Name) and e.func.id == "getattr" and len(e.args) >= 2 \
+                and isinstance(e.args[1], ast.Constant) and e.args[1].value in ZERO_VALID_GETATTR:
+            yield e, ZERO_VALID_GETATTR[e.args[1].value]
 
 
 def _funcs_of(ctx, scope):
@@ -1024,6 +1030,14 @@ def anchor_functions(ctx):
                         names = re.sub(r"\([^)]*\)", "", names)
                         for nm in names.split(","):
                             nm = nm.strip()
+                            if "*" in nm and re.fullmatch(r"[A-Za-z_*][\w.*]*", nm) and nm.strip("*."):
+                                # a pattern in the anchor text (`*.from_instance`, `interpret_as_*`): every function it names
+                                import fnmatch
+                                for f in ctx.prog.functions_in(mod):
+                                    short = f.qname.split(":")[1].split("#")[0]
+                                    if fnmatch.fnmatchcase(short, nm) or fnmatch.fnmatchcase(short.split(".")[-1], nm):
+                                        out.append(f)
+                                continue
                             if not re.fullmatch(r"[A-Za-z_][\w.]*", nm):
                                 continue
                             for f in ctx.prog.functions_in(mod):
